@@ -58,7 +58,8 @@ func wellFormed(a *app.App) (bool, string) {
 				}
 				parents[i.Sym][n] = true
 			case codec.LOAD, codec.RELOAD:
-				if _, ok := a.Funcs[i.Sym]; !ok {
+				_, st := a.Static[i.Sym]
+				if _, ok := a.Funcs[i.Sym]; !ok && !st {
 					return false, fmt.Sprintf("%s: no external function %s", n, i.Sym)
 				}
 			}
@@ -291,11 +292,35 @@ func corpus() []corpusApp {
 		}, []engine.Config{{Language: sp.CfgLang}})
 	}
 	for depth := 0; depth <= 2; depth++ {
-		for _, kind := range []string{"G0", "G1", "A0", "A1", "A2", "F0", "K0"} {
+		for _, kind := range []string{"G0", "G1", "G2", "A0", "A1", "A2", "F0", "K0"} {
 			sp := c20Spec{depth, kind, depth == 1}
 			add(fmt.Sprintf("end-%d-%s", depth, kind), func() *app.App { return c20App(sp) }, []engine.Config{{}})
 		}
 	}
+	// engine with a first function: sessions that end (both ways) and are addressed again
+	for _, sp := range []c20Spec{{0, "A0", false}, {1, "A0", false}, {1, "G0", false}, {1, "F0", true}} {
+		sp := sp
+		add(fmt.Sprintf("first-end-%d-%s", sp.Depth, sp.Kind), func() *app.App { a := c20App(sp); a.First = true; return a }, []engine.Config{{}})
+	}
+	add("first-paged", func() *app.App {
+		a := c02App(c02Cfg{Rows: []string{"aaa", "", "ccc", "dd", "eeee", ""}, Tpl: 1, Menu: 1, Next: true, Prev: true})
+		a.First = true
+		return a
+	}, []engine.Config{{OutputSize: 34}})
+	// a value loaded below the entry node, the level left again, then the session ends one level up:
+	// what is delivered with the final page must not depend on how the engine was kept between requests
+	add("lastleft", func() *app.App {
+		a := app.New("lastleft")
+		a.Node("root", "top", codec.Ins{Op: codec.MOUT, Sym: "in", Sel: "1"}, codec.Ins{Op: codec.MOUT, Sym: "quit", Sel: "2"}, codec.Ins{Op: codec.HALT},
+			codec.Ins{Op: codec.INCMP, Sym: "cc", Sel: "1"}, codec.Ins{Op: codec.INCMP, Sym: "fin", Sel: "2"})
+		a.Node("cc", "cc {{.cv}}", codec.Ins{Op: codec.LOAD, Sym: "cv", N: 20}, codec.Ins{Op: codec.MAP, Sym: "cv"}, codec.Ins{Op: codec.MOUT, Sym: "back", Sel: "0"}, codec.Ins{Op: codec.HALT},
+			codec.Ins{Op: codec.INCMP, Sym: "_", Sel: "0"})
+		a.Node("fin", "bye", codec.Ins{Op: codec.HALT})
+		a.Node("_catch", "catch", codec.Ins{Op: codec.HALT}, codec.Ins{Op: codec.INCMP, Sym: "_", Sel: "*"})
+		a.Func("cv", constFunc("good day"))
+		a.WithInputs("1", "0", "2")
+		return a
+	}, []engine.Config{{}})
 	add("echo", echoApp, []engine.Config{{}, {OutputSize: 20}, {CacheSize: 14}, {ResetOnEmptyInput: true}})
 	add("trailnl", func() *app.App {
 		// values that end in a newline: the last loaded value is the last thing in the stored record
@@ -353,3 +378,5 @@ func formApp() *app.App {
 	a.WithInputs("1", "ab", "abcdefgh")
 	return a
 }
+
+func ProbeApp() *app.App { return c20App(c20Spec{0, "A0", false}) }
